@@ -141,7 +141,8 @@ class C01(Spec):
                   'all configurations and all oracle answers, acceptance with a key implies exactly one consultation of '
                   'the crypto oracle with the configured key, the header algorithm, exactly the authenticated bytes and '
                   'exactly the decoded third segment, answered "valid". The comparator behind the HMAC verdict (jwt_strcmp) is exact string '
-                  'equality for all pairs of strings up to 300 (1100) characters. Bounded (token length), not a proof.')
+                  'equality for all pairs of strings up to 300 (1100) characters; the MAC it is compared with is computed by the provider with exactly '
+                  'the key item\'s octets for every key length. Bounded (token length), not a proof.')
     level_note = ('Crypto primitives and JSON parsing are oracles (models M2/M3); bounds L<=12 quick / 16 thorough; '
                   'MAC length reduced to 3 bytes on the HMAC path; see evidence.assumptions')
     explanation = ('Core layer: jwt_checker_verify()==0 with a key implies exactly one oracle consultation, with the '
@@ -163,6 +164,10 @@ class C01(Spec):
         qs.append(ossl_q('C01.ossl.verify.rsa_pss_eddsa', ['SIDE_VERIFY', 'NOT_ES']))
         for a in (('ES256', 'ES512') if tier == 'quick' else ('ES256', 'ES256K', 'ES384', 'ES512')):
             qs.append(ossl_q('C01.ossl.verify.%s' % a, ['SIDE_VERIFY', 'ONLY_ALG=JWT_ALG_%s' % a], budget=900))
+        # the HMAC verdict is a recomputation through the provider's sign_sha_hmac: keyed with exactly the item's octets
+        # (any length up to INT_MAX), the prescribed hash, over exactly the bytes handed in
+        qs.append(ossl_q('C01.ossl.hmac', ['SIDE_SIGN']))
+        qs.append(gnutls_q('C01.gnutls.hmac', ['SIDE_SIGN']))
         qs += strcmp_qs(tier)
         return qs
 
@@ -238,7 +243,25 @@ class C14(Spec):
     def queries(self, tier, bld):
         return errcopy_qs('C14') + [core_q('C14.verify.L12', ['PROP_C14', 'DIRTY_PRESTATE'], L=12),
                 core_q('C14.verify.L16', ['PROP_C14', 'DIRTY_PRESTATE'], L=16, budget=1800, tiers=('thorough',)),
-                builder_q('C14.builder', ['PROP_C14', 'DIRTY_PRESTATE'])]
+                builder_q('C14.builder', ['PROP_C14', 'DIRTY_PRESTATE'])] + self.map_qs(tier)
+
+    @staticmethod
+    def map_qs(tier):
+        # "header/claim calls return the same code they store in the value's error field": the one-step typed-map
+        # queries of C15 (stale value->error on entry, every name/type/replace combination) are obligations of C14 too
+        qs = []
+        for op, on in ((0, 'set'), (1, 'get')):
+            for tg, tn in enumerate(('bhdr', 'bclaim', 'jhdr', 'jclaim')):
+                if tier == 'quick' and tn in ('bhdr', 'jhdr'):
+                    continue
+                qs.append(Query('C14.map.%s.%s' % (on, tn), 'typedmap.c', MAP_UNITS,
+                                models=['alloc', 'jansson_model', 'env', 'provider_stub'],
+                                defines=['VF_FREE_NOOP', 'VJ_MAXM=4', 'ONLY_OP=%d' % op, 'ONLY_TARGET=%d' % tg],
+                                unwind=12, budget=600,
+                                bounds={'pre-state': 'any subset of 3 names with values of any JSON type', 'operations': 1,
+                                        'names': 'NULL, empty, two colliding, one new', 'VJ_MAXM': 4,
+                                        'value->error on entry': 'arbitrary (stale)'}))
+        return qs
 
 
 class C04(Spec):
@@ -803,7 +826,8 @@ _T = {
          'independence query at L=8 with 1-byte MAC (the two-run miter is the costliest query); builder side: frame + functional determinism (C10)'),
  'C14': ('Bounded model checking from an arbitrary error pre-state: verify != 0 <=> flag set; failure => non-empty message; success => flag '
          'clear and message empty; generate NULL <=> flag with message; refused setkey reported; item error => message (C07); the message handed '
-         'back after a failing step is non-empty for every message length that fits the buffer.',
+         'back after a failing step is non-empty for every message length that fits the buffer; every header/claim set and get (one step from an '
+         'arbitrary map, stale value->error) returns exactly the code it stores in value->error.',
          'message content is not examined; snprintf modelled as writing the first literal character of its format (errcopy queries: any text)'),
  'C15': ('Model checking by one-step induction: from an ARBITRARY pre-state object one arbitrary set/get/del (all types, names NULL/empty/'
          'colliding/new, replace, JSON parse result havocked) on builder and jwt_t wrappers, headers and claims, compared with a reference map; '
